@@ -99,6 +99,8 @@ var mPrependClip = Mutant{"Prepend appends to the capacity-clipped argument", "d
 var mAttachedStops = Mutant{"findDecoration gives up at a comment that is already attached", fDF, "\t\tcase *commentFragment:\n\t\t\tif current.Attached != nil {\n\t\t\t\tcontinue\n\t\t\t}\n\t\t\tif direction == 1 {", "\t\tcase *commentFragment:\n\t\t\tif current.Attached != nil {\n\t\t\t\treturn\n\t\t\t}\n\t\t\tif direction == 1 {"}
 var mAdjustedLine = Mutant{"fragment() marks comment lines with //line-adjusted numbers", fDF, "startLine := f.position(c.Pos()).Line", "startLine := f.Fset.Position(c.Pos()).Line"}
 
+var mCgoNamed = Mutant{"updateImports sends the cgo pseudo-import through name selection", fR, "if alias == \".\" || alias == \"_\" || path == \"C\" {", "if alias == \".\" || alias == \"_\" {"}
+
 // SelfTestMutants lists, per property, the mutants its check must catch.
 var SelfTestMutants = map[string][]Mutant{
 	"C01": {mTokenLen, mDropTok, mElseGuard, mFragNoChild, mNoParseComments, mFileScope, mDecKey, mCrossFile, mAvoidGroup, mEndAtPos, mInnerAtToken, mAttachedStops, mAdjustedLine},
@@ -107,8 +109,8 @@ var SelfTestMutants = map[string][]Mutant{
 	"C04": {mSwapDecs, mEndFlag, mCondDec},
 	"C05": {mSpaceNoFresh, mSpaceEmpty3, mSpaceLast, mNoAdvanceNL},
 	"C06": {mCloneAlias, mCloneDropDec, mCloneShareDec, mDupFlag, mDeleteReg, mClonePath},
-	"C07": {mNoSort, mIdentNoPeriod, mResolveAll},
-	"C08": {mAlwaysSort, mMergeOrder, mIdentNoPeriod, mStoreBeforeErr, mResolveAll},
+	"C07": {mNoSort, mIdentNoPeriod, mResolveAll, mCgoNamed},
+	"C08": {mAlwaysSort, mMergeOrder, mIdentNoPeriod, mStoreBeforeErr, mResolveAll, mCgoNamed},
 	"C09": {mAvoidTypo, mForceX, mNoVendorLocal, mFieldPath, mRawFile, mDropPath, mSelName, mSelPathCond, mGoastStopEarly},
 	"C10": {mDropPath, mSelName, mSelPathCond, mSelFromAlias, mForceX, mNoVendorLocal, mClonePath},
 	"C11": {mDropMapReg, mLateMapReg, mDropChildDeco, mDeleteReg, mBackMapSel},
